@@ -1,4 +1,4 @@
 (* C07 correspondence: the shared concentrated-liquidity glue with no extra per-operation observables. *)
 From Coq Require Import ZArith List Bool.
 From Osmo Require Import Base.Obs CL.CLPool CL.CLStep CL.CLCorr.
-Definition case_ok (c : case) : bool := case_ok_with no_pre c.
+Definition case_ok (c : case) : bool := case_ok_with no_pre no_post c.
